@@ -104,25 +104,25 @@ BUS_PROPS = {
     'C04': dict(oracle=lambda F, w: oracle.c04(F),
                 profiles=[('clean', 3), ('single', 2), ('gap', 3), ('gap_fwd', 2), ('nested', 3), ('multi', 2), ('deep', 1), ('await_any', 3), ('await_any_clean', 2)]),
     'C05': dict(oracle=lambda F, w: oracle.c05(F),
-                profiles=[('clean', 3), ('backlog', 3), ('gap', 2), ('multi', 2), ('nested', 2), ('await_any', 2)]),
+                profiles=[('clean', 3), ('backlog', 3), ('gap', 2), ('multi', 2), ('nested', 2), ('await_any', 2), ('multi_stop', 3)]),
     'C06': dict(oracle=lambda F, w: oracle.c06(F),
                 profiles=[('clean', 1), ('multi', 4), ('nested', 2), ('parallel', 2), ('stalls', 2), ('gap', 2), ('multi_fwd', 2), ('multi_stop', 4)]),
     'C07': dict(oracle=lambda F, w: oracle.c07(F),
                 profiles=[('topo', 5), ('topo_traffic', 4), ('topo_redispatch', 3), ('multi_fwd', 2)]),
     'C08': dict(oracle=lambda F, w: oracle.c08(F), watch=completion_watch,
-                profiles=[('topo', 4), ('topo_traffic', 2), ('multi_fwd', 3), ('nested', 2), ('redispatch', 2), ('clean', 1), ('errors', 1)]),
+                profiles=[('topo', 4), ('topo_traffic', 2), ('multi_fwd', 3), ('nested', 2), ('redispatch', 2), ('clean', 1), ('errors', 1), ('timeouts', 3), ('timeouts_clean', 1)]),
     'C09': dict(oracle=lambda F, w: oracle.c09(F),
                 profiles=[('lineage', 4), ('redispatch', 2), ('parallel', 2), ('multi_fwd', 2), ('clean', 1)]),
     'C10': dict(oracle=lambda F, w: oracle.c10(F),
                 profiles=[('timeouts_clean', 3), ('timeouts', 4)]),
     'C11': dict(oracle=lambda F, w: oracle.c11(F, _raised(w, F)) + [v for v in oracle.c01(F) if v['clause'] in ('C01.missing', 'C01.duplicate')],
-                profiles=[('errors', 5), ('single', 1)]),
+                profiles=[('errors', 5), ('errors_parallel', 3), ('single', 1)]),
     'C13': dict(oracle=lambda F, w: oracle.c13(F) + [v for v in oracle.c01(F) if v['clause'] != 'C01.hang'] + oracle.hang_violations(F, 'C13'),
                 profiles=[('small_history_flat', 3), ('small_history', 3)]),
     'C14': dict(oracle=lambda F, w: oracle.c14(F),
                 profiles=[('flood_caller', 3), ('flood_handler', 4), ('backlog', 1), ('small_history', 1)]),
     'C15': dict(oracle=lambda F, w: oracle.c15(F),
-                profiles=[('idle_race', 4), ('errors', 1), ('timeouts', 1), ('multi_fwd', 2)]),
+                profiles=[('idle_race', 4), ('idle_dead_loop', 3), ('errors', 1), ('timeouts', 1), ('multi_fwd', 2)]),
     'C17': dict(oracle=lambda F, w: oracle.c17(F, w),
                 profiles=[('wal', 4), ('wal_faults', 3), ('wal_enum', 3)]),
     'C18': dict(oracle=lambda F, w: oracle.c18(F, w),
